@@ -22,7 +22,7 @@ import re
 import vlib
 from checks import span_common
 
-ACTIONS = ["Begin", "New", "Enter", "End", "Exit", "Event", "Current"]
+ACTIONS = ["Begin", "New", "Enter", "End", "Exit", "Event", "Current", "Panic"]
 TASKS = ["Spawn", "Poll", "Yield", "Complete"]
 LAZY = ["Lazy", "PollLazy"]
 
@@ -73,6 +73,6 @@ def run(ctx):
         "what the statement does not say is not compared: Traceparent::current() outside any trace and its ids inside an unsampled trace, events outside any trace, ids of events in unsampled traces",
         "an invalid header (no trace id or no span id) is no trace: the next span is a root; headers with a trace id but no span id are not generated (the code reuses that trace id for the new trace, which the bijection would flag although the statement is silent); invalid headers carry the sampled flag when the sampled-trace filter is installed",
         "hand-off frames are Frame::current(rt.ctxt()) (the book's way), span frames and pushed headers; the specification models the repaired open_push/open_disabled (fix F23: capture the active traceparent)",
-        "span guards are moved into their frame; no panics (C03/C05)",
+        "span guards are moved into their frame; a panic is caught below everything the thread has entered (one catch level per thread), the level / error of the record emitted while unwinding is C05's",
         "bounds: see coverage.tlc_runs[*].constants",
     ]
